@@ -91,6 +91,8 @@ func c05(c *Ctx) {
 	}
 	// what a caller gets back is his alone: a result cut from a pooled or otherwise kept buffer is overwritten by
 	// the next call (the key exchange keeps the decrypted answer while the next exchange may already run)
+	r.Rule("R05.H", "the key-exchange wrapper seals SHA1(payload) ++ payload ++ padding: every SHA-1 digest in the extracted plaintext term is the digest of the payload parameter exactly", 1)
+	c.tempKeyPlaintext("R05.H")
 	r.Rule("R05.O", "every []byte an exported function of package aes_ige returns belongs to a buffer made during the call (make, append onto nothing, an allocating library call, or such a result of a callee) - never storage reached through a pointer, field, pool or package variable", 4)
 	{
 		var fns []*ssa.Function
